@@ -89,6 +89,8 @@ def run(prog: Program, chk: Check):
     Cc = chk.rule("C10-C", "copy() builds its result only from from_buffer_copy(...) (and constructors over such copies)", 2,
                   "from_buffer / cast / returning the argument would alias the source's storage")
     ncopy = 0
+    from ..types import Types
+    tyc = Types(prog)
     for modname in (MB, MS, "pyrtma.header", "pyrtma.message_data"):
         m = prog.modules.get(modname)
         if m is None:
@@ -115,6 +117,18 @@ def run(prog: Program, chk: Check):
                     good = False
                     why.append(norm(r.value))
             shared = [norm(c) for c in calls_in(f.node) if (isinstance(c.func, ast.Attribute) and c.func.attr in SHARING) or (isinstance(c.func, ast.Name) and c.func.id in SHARING)]
+            # from_buffer_copy lives on the ctypes metatype: it exists on the structure CLASS, not on its instances
+            # (`m.data.from_buffer_copy(...)` raises AttributeError - no copy at all)
+            for c in calls_in(f.node):
+                if isinstance(c.func, ast.Attribute) and c.func.attr == "from_buffer_copy":
+                    rv = c.func.value
+                    rt = tyc.expr(f, rv)
+                    on_class = rt.kind == "type" or (isinstance(rv, ast.Name) and rv.id == "cls") or (isinstance(rv, ast.Call) and norm(rv.func) == "type") \
+                        or (isinstance(rv, ast.Attribute) and rv.attr == "__class__") or (isinstance(rv, ast.Name) and rv.id[:1].isupper())
+                    on_instance = rt.kind == "cls" and not on_class
+                    Cc.decide(not on_instance, fkey(f, f"receiver:{norm(rv)}"), where(f, c), "from_buffer_copy is called on a structure class",
+                              f"{f.qual}: `{norm(c)[:70]}` calls from_buffer_copy on an instance (`{norm(rv)}` is a {rt.cls.name if rt.kind == 'cls' else 'value'}); ctypes provides it on the class only - "
+                              f"the call raises AttributeError and no copy is produced; use type({norm(rv)}).from_buffer_copy(...)")
             Cc.decide(good and not shared, fkey(f, "result"), where(f), "result built from from_buffer_copy only",
                       f"{f.qual} returns {why or shared}: may share storage with its argument")
     if ncopy < 2:
@@ -183,13 +197,18 @@ def run(prog: Program, chk: Check):
         lcm_ = guards.copy_map(f.node)  # `etype = ftype._type_` is looked through
         tvar = "$f1"
         out = {}
+        canon_cache = {}
         for n in g_.nodes:
             if n.kind != "stmt" or n.ast is None or isinstance(n.ast, (ast.Continue, ast.Pass)) or not any(a is lp for a in _anc(n.ast)):
                 continue
             for p_ in gs_.at(n):
                 facts = set()
                 for e, pol in p_:
-                    ce_ = _Canon(mapping).visit(_copy.deepcopy(guards.subst(e, lcm_)))
+                    # (re-parsed from its text: the fact's AST carries parent links, a deepcopy would drag the module along)
+                    key_ = norm(e)
+                    if key_ not in canon_cache:
+                        canon_cache[key_] = _Canon(mapping).visit(ast.parse(norm(guards.subst(e, lcm_)), mode="eval").body)
+                    ce_ = canon_cache[key_]
                     while isinstance(ce_, ast.UnaryOp) and isinstance(ce_.op, ast.Not):
                         ce_, pol = ce_.operand, not pol
                     names = {x.id for x in ast.walk(ce_) if isinstance(x, ast.Name)}
